@@ -476,12 +476,16 @@ class SpecEval(object):
             return And(*parts) if is_forall else Or(*parts)
         bound = []
         extra = dict(self.extra)
-        for nm in names:
+        sorts = sort if isinstance(sort, (list, tuple)) else [sort] * len(names)
+        for nm, sort in zip(names, sorts):
             if sort == 'Val':
                 c = fresh('q_' + nm, Val)
                 extra[nm] = SV(c, Ty.ANY)
             elif sort == 'Str':
                 c = fresh('q_' + nm, StrS)
+                extra[nm] = c
+            elif sort == 'Seq':
+                c = fresh('q_' + nm, SeqVal)
                 extra[nm] = c
             else:
                 c = fresh('q_' + nm, IntS)
@@ -576,6 +580,12 @@ class SpecEval(object):
 
     def fn_vstr(self, n):
         return SV(VStr(str_of(self.ev(n.args[0]))), Ty.STR)
+
+    def fn_vbytes(self, n):
+        return SV(VBytes(str_of(self.ev(n.args[0]))), Ty.BYTES)
+
+    def fn_is_bytes(self, n):
+        return is_bytes(val_of(self.ev(n.args[0])))
 
     def fn_vint(self, n):
         return SV(VInt(int_of(self.ev(n.args[0]))), Ty.INT)
